@@ -1,6 +1,6 @@
 (* C04: conversions, relabelling and exports preserve the represented function *)
 From QV.Model Require Import Base Matrix Convert Values.
-From QV.Proofs Require Import BaseProofs KeyProofs ArithProofs ValuesProofs TempRange InvProofs.
+From QV.Proofs Require Import BaseProofs KeyProofs ArithProofs ValuesProofs TempRangeQ InvProofs.
 From Coq Require Import Lia Lqa Qfield.
 Open Scope Q_scope.
 
